@@ -90,6 +90,24 @@ Proof.
   apply (chainP_cover _ _ 0); auto. rewrite lmax_unfold in A3. lia.
 Qed.
 
+(** (iv) as far as it is proved: L1 is contiguous above the newest snapshot's MaxTXID
+    ([chainP], part of [RInv]); every level 1..8 is in name order, non-overlapping, holds only
+    ranges within 1..pos, and max(L) <= max(L-1).
+    MISSING (hence [_partial]): for levels >= 2, that a hole can only lie at or below the
+    newest snapshot's MaxTXID (the alignment argument "no file of L-1 straddles max(L)" is not
+    mechanised).  It is not needed for (i): the chain exhibited in PlanProofs.v uses only the
+    newest snapshot, L1 and L0.  The correspondence oracle [rinv_listing_ok] checks it for every
+    level on the implementation's listings. *)
+Theorem retention_levels_partial : forall st, RInv st ->
+  chainP (snapS st) 0 (st_rep st 1) /\
+  forall L, 1 <= L <= 8 ->
+    incrP 0 (st_rep st L) /\ (forall f, In f (st_rep st L) -> s_max f <= st_pos st) /\
+    lmax (st_rep st L) <= lmax (st_rep st (L - 1)).
+Proof.
+  intros st HI. split. { destruct (ri_lv st HI 1) as (H&_&_); [lia|auto]. }
+  intros L HL. destruct (ri_lv st HI L HL) as (_&H2&H3). split; auto. split; auto. apply (ri_lmax st HI L HL).
+Qed.
+
 (** Outside the domain of the theorem: a direct EnforceRetentionByTXID with a
     floor above every snapshot can cut the only chain (here: L1 = 1..1, 2..2,
     L0 reduced to TXID 2, no snapshot, floor 5). *)
